@@ -633,6 +633,16 @@ func runC15(c *Ctx) error {
 		}
 		raw, _ := json.Marshal(f.Case)
 		switch {
+		case f.Case["gateway"] != nil && strings.Contains(fmt.Sprint(f.Case["gateway"]), "fewer objects"):
+			c15ShortService(c)
+		case f.Case["gateway"] != nil:
+			c15Sibling(c)
+		case f.Case["actions"] != nil:
+			var cs cnCase
+			json.Unmarshal(raw, &cs)
+			if res := cnRun(cs); res.Problem != "" {
+				c.Rep.Fail("impl_ne_spec", nil, cs, map[string]interface{}{"what": res.Problem})
+			}
 		case f.Case["target"] != nil:
 			var cs c15CancelCase
 			json.Unmarshal(raw, &cs)
@@ -652,6 +662,8 @@ func runC15(c *Ctx) error {
 	// a failing federated sub-query next to a slow one
 	for k := 0; k < c.N(2, 6); k++ {
 		c15Sibling(c)
+		c15ShortService(c)
+		c15ConnGone(c)
 	}
 	// cancellation first: few, slow cases
 	for _, target := range []string{"http", "federation"} {
